@@ -53,3 +53,81 @@ PROPS["C15"] = {
     "assumptions": [],
     "not_decided": [],
 }
+
+# whole properties not claimed (reason); clause-level exclusions live in PROPS[..]["not_decided"]
+NOT_APPLICABLE = {}
+
+TASK = "shuttle-engine/src/runtime/task/mod.rs"
+TASK_OVERLAY = ["shuttle-engine/src/runtime/task/mod.rs.append.rs", "shuttle-engine/src/runtime/thread/continuation.rs.append.rs",
+                "shuttle-engine/src/runtime/storage.rs.append.rs", "shuttle-engine/src/lib.rs.append.rs"]
+A_BT = "stub: shuttle_engine::backtrace_enabled -> false (environment read; Backtrace::force_capture unsupported by Kani)"
+A_DUMMY = "Task values are built by Task::verif_dummy (no coroutine: `continuation` holds None, `yielder` is null); fields read by the logic under contract are set as Task::new sets them"
+
+TASK_SM = {
+    "block": K("C03.task.block", "c03_task_block",
+               "requires state != Finished; ensures state' == Blocked{spurious}, nothing else changes", [TASK + "::Task::block"]),
+    "sleep": K("C03.task.sleep", "c03_task_sleep",
+               "requires state != Finished; ensures state' == Sleeping, not spuriously wakeable, nothing else changes", [TASK + "::Task::sleep"]),
+    "unblock": K("C03.task.unblock", "c03_task_unblock",
+                 "requires state != Finished; ensures state' == Runnable, blocked_in_park' == false, token unchanged", [TASK + "::Task::unblock"]),
+    "finish": K("C03.task.finish", "c03_task_finish",
+                "requires state != Finished; ensures state' == Finished, nothing else changes", [TASK + "::Task::finish"]),
+    "absorbing": K("C03.task.finished_absorbing", "c03_task_finished_absorbing",
+                   "state == Finished ==> after any of wake/abort/detach/set_waiter/take_waiter/unpark: state' == Finished",
+                   [TASK + "::Task::wake", TASK + "::Task::abort", TASK + "::Task::detach", TASK + "::Task::unpark"]),
+    "detach": K("C03.task.detach", "c03_task_detach", "ensures detached', nothing else changes", [TASK + "::Task::detach"]),
+    "suw": K("C17.task.sleep_unless_woken", "c17_task_sleep_unless_woken",
+             "ensures woken' == false; state' == (if old(woken) then old(state) else Sleeping)", [TASK + "::Task::sleep_unless_woken"]),
+    "wake": K("C17.task.wake", "c17_task_wake",
+              "ensures woken'; state' == Runnable if old(state)==Sleeping else old(state) (a waker never releases a Blocked task)",
+              [TASK + "::Task::wake"]),
+    "nolost": K("C17.task.no_lost_wakeup", "c17_task_no_lost_wakeup",
+                "for every state: wake; sleep_unless_woken leaves the task not Sleeping; a wake after going to sleep makes it Runnable",
+                [TASK + "::Task::wake", TASK + "::Task::sleep_unless_woken"]),
+    "abort": K("C17.task.abort", "c17_task_abort",
+               "ensures finished => unchanged; otherwise same as wake (idempotent)", [TASK + "::Task::abort"]),
+    "waiter": K("C07.task.waiter", "c07_task_waiter",
+                "set_waiter(w) returns !finished and registers w only then; take_waiter returns it exactly once",
+                [TASK + "::Task::set_waiter", TASK + "::Task::take_waiter"]),
+    "park": K("C05.task.park", "c05_task_park",
+              "requires inv_park, Runnable, !blocked_in_park; ensures token => consumed, returns false, no block; else Blocked{spurious=true}, blocked_in_park, returns true; inv_park'",
+              [TASK + "::Task::park"]),
+    "unpark": K("C05.task.unpark", "c05_task_unpark",
+                "requires inv_park; ensures blocked_in_park => Runnable, no token left; else token' == true (no accumulation), state unchanged; inv_park'",
+                [TASK + "::Task::unpark"]),
+    "notcum": K("C05.task.unpark_not_cumulative", "c05_task_unpark_not_cumulative",
+                "unpark; unpark; park (no block); park (blocks); unpark releases and leaves no token",
+                [TASK + "::Task::park", TASK + "::Task::unpark"]),
+    "spur": K("C05.task.spurious_wakeup_then_unpark", "c05_task_spurious_wakeup_then_unpark",
+              "a spuriously woken parked task that later blocks elsewhere is not released by unpark; the token is stored instead",
+              [TASK + "::Task::park", TASK + "::Task::unblock", TASK + "::Task::unpark"]),
+}
+
+PROPS["C03"] = {
+    "scope": "task state machine transitions complete over all states (K)",
+    "kani": [TASK_SM[k] for k in ("block", "sleep", "unblock", "finish", "absorbing", "detach", "wake")],
+    "overlay_files": TASK_OVERLAY,
+    "assumptions": [A_BT, A_DUMMY],
+    "not_decided": [],
+}
+PROPS["C05"] = {
+    "scope": "park/unpark token machine complete over all states (K)",
+    "kani": [TASK_SM[k] for k in ("park", "unpark", "notcum", "spur")],
+    "overlay_files": TASK_OVERLAY,
+    "assumptions": [A_BT, A_DUMMY],
+    "not_decided": [],
+}
+PROPS["C17"] = {
+    "scope": "wake/sleep_unless_woken/abort complete over all states (K)",
+    "kani": [TASK_SM[k] for k in ("suw", "wake", "nolost", "abort")],
+    "overlay_files": TASK_OVERLAY,
+    "assumptions": [A_BT, A_DUMMY],
+    "not_decided": [],
+}
+PROPS["C07"] = {
+    "scope": "join waiter registration (K)",
+    "kani": [TASK_SM["waiter"]],
+    "overlay_files": TASK_OVERLAY,
+    "assumptions": [A_BT, A_DUMMY],
+    "not_decided": [],
+}
